@@ -64,6 +64,9 @@ Proof.
   destruct o; unfold step, expected_dtor.
   - unfold do_create. destruct (find_empty (slots d) 0); simpl; auto.
     destruct (HDB_ARRAY_MAX_ELEMENTS <? handle_count d + 1); reflexivity.
+  - unfold do_create_fail. destruct (find_empty (slots d) 0) as [i0|]; simpl.
+    + destruct (nth_error (slots d) (Z.to_nat i0)); reflexivity.
+    + destruct (HDB_ARRAY_MAX_ELEMENTS <? handle_count d + 1); reflexivity.
   - pose proof (dlog_get d h). destruct (do_get d h) as [[d' r] inst]; auto.
   - unfold do_put. destruct (lookup d h) as [[i s]|]; simpl; auto.
     rewrite dlog_drop_ref. destruct (s_ref s =? 1); auto.
@@ -176,6 +179,13 @@ Proof.
       * simpl. rewrite refs_in_app. unfold contrib; simpl.
         replace (HDB_STATE_ACTIVE =? HDB_STATE_EMPTY) with false by reflexivity. simpl.
         destruct (next_inst d =? x); lia.
+  - unfold do_create_fail. destruct (find_empty (slots d) 0) as [i|] eqn:E.
+    + apply find_empty_spec in E. destruct E as (H0 & s & Hn & Hs). rewrite Z.sub_0_r in Hn.
+      rewrite Hn. simpl. rewrite (refs_in_upd _ _ s) by auto. rewrite (contrib_empty s) by auto.
+      rewrite contrib_empty by (simpl; auto). replace (- HDB_ENOMEM) with (-12) by reflexivity. lia.
+    + destruct (HDB_ARRAY_MAX_ELEMENTS <? handle_count d + 1); simpl.
+      * replace (- HDB_EINVAL) with (-22) by reflexivity. lia.
+      * rewrite refs_in_app, contrib_zero_slot. replace (- HDB_ENOMEM) with (-12) by reflexivity. lia.
   - pose proof (refs_get d h x) as G. destruct (do_get d h) as [[d' r] inst].
     unfold gained. destruct r; simpl in *; lia.
   - unfold do_put. destruct (lookup d h) as [[i s]|] eqn:L; simpl.
@@ -354,6 +364,13 @@ Proof.
       intros s Hn. rewrite nth_app_new in Hn. destruct (Nat.eqb k (length (slots d))).
       * inversion Hn; subst. right; simpl; auto.
       * apply A; auto.
+  - unfold do_create_fail. destruct (find_empty (slots d) 0) as [i|] eqn:E; simpl.
+    + apply find_empty_spec in E. destruct E as (H0 & s & Hn & Hs). rewrite Z.sub_0_r in Hn.
+      rewrite Hn. simpl. apply all_dead_upd; auto. intros _. left; simpl; auto.
+    + destruct (HDB_ARRAY_MAX_ELEMENTS <? handle_count d + 1); simpl; auto.
+      intros s Hn. rewrite nth_app_new in Hn. destruct (Nat.eqb k (length (slots d))).
+      * inversion Hn; subst. apply zero_slot_dead.
+      * apply A; auto.
   - pose proof (dead_get_pres c k d h A). destruct (do_get d h) as [[d' r] inst]; auto.
   - pose proof (dead_put c k d h A). destruct (do_put d h); auto.
   - unfold do_destroy. destruct (lookup d h) as [[i s]|] eqn:L; simpl; auto.
@@ -498,6 +515,15 @@ Proof.
     left. unfold do_create. destruct (find_empty (slots d) 0) as [i|] eqn:F.
     + apply find_empty_spec in F. destruct F as (Hi0 & t & Ht & Hst). rewrite Z.sub_0_r in Ht.
       apply KEEP; auto. simpl. rewrite nth_upd. destruct (Nat.eqb_spec (Z.to_nat i) (Z.to_nat (idx_of h))).
+      * rewrite e in Ht. rewrite Hn in Ht. inversion Ht; subst t. contradiction.
+      * exists s; auto.
+    + destruct (HDB_ARRAY_MAX_ELEMENTS <? handle_count d + 1); simpl.
+      * split; auto. exists s; auto.
+      * apply KEEP; auto. simpl. rewrite nth_error_app1 by auto. exists s; auto.
+  - (* failed create: only touches an EMPTY slot or appends an EMPTY one *)
+    left. unfold do_create_fail. destruct (find_empty (slots d) 0) as [i|] eqn:F.
+    + apply find_empty_spec in F. destruct F as (Hi0 & t & Ht & Hst). rewrite Z.sub_0_r in Ht.
+      rewrite Ht. apply KEEP; auto. simpl. rewrite nth_upd. destruct (Nat.eqb_spec (Z.to_nat i) (Z.to_nat (idx_of h))).
       * rewrite e in Ht. rewrite Hn in Ht. inversion Ht; subst t. contradiction.
       * exists s; auto.
     + destruct (HDB_ARRAY_MAX_ELEMENTS <? handle_count d + 1); simpl.
